@@ -80,7 +80,7 @@ def coq_closure(vfile):
         except OSError:
             continue
         src = re.sub(r"\(\*.*?\*\)", " ", src, flags=re.S)
-        for m in re.finditer(r"From\s+(WP|WPGen)\s+Require\s+(?:Import|Export)?\s*([^.]*(?:\.[A-Za-z_][^.\s]*)*)\s*\.", src):
+        for m in re.finditer(r"From\s+(WP|WPGen)\s+Require\s+(?:Import\s+|Export\s+)?(.*?)\.(?=\s|$)", src, flags=re.S):
             root = "theories" if m.group(1) == "WP" else "gen"
             for mod in m.group(2).split():
                 p = os.path.join(root, mod.replace(".", "/") + ".v")
